@@ -298,6 +298,48 @@ func extractGrpcBroker(p *pkgs, f *facts) {
 	}
 	f.lean = append(f.lean, fmt.Sprintf("def grpcMuxListener : GrpcMux.ListenerParams := ⟨%s⟩", leanBool(replaces)))
 	f.set("grpcMuxListener", map[string]interface{}{"listenerReplaces": replaces})
+	// knockPerTransport: every function literal that opens a stream on the muxer (`….muxer.Dial()`) — that is the dialer
+	// gRPC calls for EVERY transport of a brokered connection — sends the knock (`….knock(…)`) itself, before it, and
+	// there is such a literal; muxer.Dial() is called nowhere outside such a literal
+	perTransport, nDialLits, bareDials := true, 0, 0
+	for _, file := range p.files {
+		ast.Inspect(file, func(n ast.Node) bool {
+			fl, ok := n.(*ast.FuncLit)
+			if !ok {
+				return true
+			}
+			calls := nodeCalls(fl.Body)
+			if di := strings.Index(calls, ".muxer.Dial()"); di >= 0 {
+				nDialLits++
+				if ki := strings.Index(calls, ".knock("); ki < 0 || ki > di {
+					perTransport = false
+				}
+			}
+			return true
+		})
+		for _, d := range file.Decls {
+			fd, ok := d.(*ast.FuncDecl)
+			if !ok || fd.Body == nil {
+				continue
+			}
+			var walk func(n ast.Node) bool
+			walk = func(n ast.Node) bool {
+				switch v := n.(type) {
+				case *ast.FuncLit:
+					return false
+				case *ast.CallExpr:
+					if strings.HasSuffix(exprString(v.Fun), ".muxer.Dial") {
+						bareDials++
+					}
+				}
+				return true
+			}
+			ast.Inspect(fd.Body, walk)
+		}
+	}
+	perTransport = perTransport && nDialLits >= 1 && bareDials == 0
+	f.lean = append(f.lean, fmt.Sprintf("def grpcMuxDialer : GrpcMux.DialerParams := ⟨%s⟩", leanBool(perTransport)))
+	f.set("grpcMuxDialer", map[string]interface{}{"knockPerTransport": perTransport, "dialerLiterals": nDialLits})
 	// both streamer constructors build `send` with make(chan *sendErr) — one argument, no capacity
 	unbuf, nCtor := true, 0
 	for _, ctor := range []string{"newGRPCBrokerServer", "newGRPCBrokerClient"} {
